@@ -19,14 +19,14 @@ Case format sent to the model (one S-expression field, see ocaml/comp_cli.ml):
            target stdout bufcap)
   bytes = x<hex pairs>, numbers = n<hex>, bool = 0|1, option = () | (v)
 """
-import os, sys, re, json, subprocess, tempfile, shutil, itertools, hashlib
+import os, sys, re, json, subprocess, tempfile, shutil, itertools, hashlib, threading
 from concurrent.futures import ThreadPoolExecutor
 import vlib
 
 ID = 'C12'
 COMPONENTS = ['cli']
 THEOREMS = ['C12_cli_exit_in_012', 'C12_usage_is_2', 'C12_stdout_only_on_success',
-            'C12_write_failure_is_exit1', 'C12_string_mode_is_value', 'C12_yaml_stream_shape',
+            'C12_write_failure_is_exit1', 'C12_healthy_run_succeeds', 'C12_string_mode_is_value', 'C12_yaml_stream_shape',
             'C12_multi_files_are_visible_fields', 'C12_no_trailing_newline_only_last',
             'C12_tla_bind_by_name', 'C12_tla_bind_permutation', 'C12_ext_code_lazy',
             'C12_var_split_at_first_eq', 'C12_no_panic', 'C12_needs_flush', 'C12_nonvacuous']
@@ -97,10 +97,18 @@ class Plain:
         self.cli = cli
         self.cwd = cwd
         self.cache = {}
+        self.locks = {}
+        self.big = threading.Lock()
         self.runs = 0
 
     def run(self, sargs, expr, env=None):
         key = (tuple(sargs), expr, tuple(sorted((env or {}).items())))
+        with self.big:
+            lk = self.locks.setdefault(key, threading.Lock())
+        with lk:
+            return self._run(key, sargs, expr, env)
+
+    def _run(self, key, sargs, expr, env):
         if key in self.cache:
             return self.cache[key]
         e = dict(os.environ)
@@ -383,8 +391,6 @@ class CaseRunner:
         a = []
         if c['s'] is not None:
             a += ['-s', str(c['s'])]
-        if c['t'] is not None:
-            a += ['-t', str(c['t'])]
         for kind, raw in c['vars']:
             if kind in EXT_KINDS:
                 # file-based kinds are handed to the plain runs by content (the plain runs share one directory)
@@ -790,7 +796,8 @@ def gen_cases(rng, tier):
         if tier != 'thorough':
             keep = [x for x in combos if not (x[0] and x[1])]
             usage = [x for x in combos if x[0] and x[1]]
-            combos = rng.sample(keep, 9 if tag in ('string', 'array', 'object') else 5) + rng.sample(usage, 1 if i % 4 == 0 else 0)
+            combos = rng.sample(keep, 6 if tag in ('string', 'array', 'object') else 3) + rng.sample(usage, 1 if i % 6 == 0 else 0)
+        s_prog = rng.choice([None, None, 200, 1000])
         for j, (S, y, ntn, m, o) in enumerate(combos):
             ins = inkinds if (tier == 'thorough' and j % 5 == 0) else [inkinds[(i + j) % 3]]
             for ik in ins:
@@ -801,11 +808,11 @@ def gen_cases(rng, tier):
                 if o and rng.random() < 0.2:
                     oo = 'exists'
                 cases.append(mk(src=src, func=func, S=S, y=y, ntn=ntn, m=mm, o=oo, **{'in': ik},
-                                s=rng.choice([None, None, 200, 1000]), t=rng.choice([None, None, 0, 3, 20])))
+                                s=s_prog, t=rng.choice([None, None, 0, 3, 20])))
     # B. sink faults
     fault_progs = [p for p in progs if p[0] in ('string', 'array', 'object') and 'error' not in p[1]]
     sinks = ['full', 'closed', 'limit:0', 'limit:1', 'limit:5', 'limit:40', 'limit:1030']
-    n_b = len(fault_progs) * (len(sinks) if tier == 'thorough' else 3)
+    n_b = len(fault_progs) * (len(sinks) if tier == 'thorough' else 2)
     for i in range(n_b):
         tag, src, func = fault_progs[i % len(fault_progs)]
         S = tag == 'string' and rng.random() < 0.8
